@@ -55,6 +55,12 @@ def _mentions_outside(t, name, stop_ops):
 def check(ctx):
     P = ctx.P
     N = ctx.normalizer()
+    # the default estimators are part of the measures' definition: GRE(X, XA) = 0 rests on the ridge
+    # solve, GRD(X, XQ) = 0 on the Procrustes map (anchors linear_model/_ridge.py, _base.py)
+    from . import C10 as _c10, C18 as _c18
+
+    _c10.check(ctx)
+    _c18.check(ctx)
     X, Y = arr("X", "N", "M"), arr("Y", "N", "P")
     tr, te = arr("train_idx", "R", dtype="int"), arr("test_idx", "T", dtype="int")
     cases = [
